@@ -292,6 +292,8 @@ struct C19 : Scenario {
 			if (m.kind == 'f') {
 				static const char *ms[] = {"-lh0-", "-lh1-", "-lh5-", "-lh6-", "-lh7-", "-lz5-", "-lzs-", "-pm2-", "-lhx-", "-lh2-", "-lh3-", "-pm0-", "-lz4-", "-lh4-"};
 				m.method = ms[rng.below(14)];
+				// a method field is five bytes, not a string: a NUL inside it shortens what is printed, the column stays five wide
+				if (i > 0 && rng.chance(1, 16)) { static const char *nm[] = {"-lh\0-", "-l\0\0-", "-\0h5-", "-lh5\0"}; m.method = std::string(nm[rng.below(4)], 5); }
 			} else m.method = "-lhd-";
 			// permissions
 			int perms = -1, uid = -1, gid = -1;
@@ -365,8 +367,10 @@ struct C19 : Scenario {
 				dup_names = true;
 			}
 		}
-		static const char *cmds[] = {"l", "lv", "v", "vv", "lq", "vq0", "lvq1", "vvq2", "-l", "vq", "lq1", "vvq0"};
-		p.argv = {"lha", cmds[rng.below(12)], rng.chance(1, 4) ? "-" : "/w/a.lzh"};
+		// the first header is how the archive is recognised: its method field has to be one the signature search knows
+		if (!p.members.empty() && p.members[0].method.find('\0') != std::string::npos) p.members[0].method = "-lh5-";
+		static const char *cmds[] = {"l", "lv", "v", "vv", "lq", "vq0", "lvq1", "vvq2", "-l", "vq", "lq1", "vvq0", "lvv", "vvv", "lvqv", "vvq2v", "-lvv", "lq2v"};
+		p.argv = {"lha", cmds[rng.below(18)], rng.chance(1, 4) ? "-" : "/w/a.lzh"};
 		if (p.argv[2] == "-") p.sets("srckind", rng.chance(1, 2) ? "FILE_PIPE" : "FILE_SEEK");
 		else if (rng.chance(1, 6)) p.sets("srckind", "FILE_HALFSEEK");
 		if (rng.chance(1, 16)) {
@@ -424,6 +428,13 @@ struct C19 : Scenario {
 		begin_run(p);
 		RunResult res;
 		BuiltArchive a = build_archive(p);
+		// (plans are only meaningful when the archive can be recognised at all: a minimiser that drops members may put one
+		// with a NUL in its method field first; that is not the subject here)
+		if (!p.members.empty()) {
+			const std::string &m0 = p.members[0].method;
+			bool known = m0.size() == 5 && m0[0] == '-' && m0[4] == '-' && ((m0[1] == 'l' && m0[2] == 'h') || (m0[1] == 'l' && m0[2] == 'z' && (m0[3] == '4' || m0[3] == '5' || m0[3] == 's')) || (m0[1] == 'p' && m0[2] == 'm' && m0[3] != 's'));
+			if (!known) { res.trace = finish_trace(); return res; }
+		}
 		// listing truth from the specification each member was built from
 		std::vector<ListTruth> lts;
 		for (size_t i = 0; i < p.members.size(); ++i) {
@@ -527,6 +538,8 @@ struct C18 : Scenario {
 			int ks = (int) rng.below(6);
 			m.kind = ks == 0 ? 'l' : ks == 1 ? 'd' : 'f';
 			m.os = rng.chance(1, 2) ? 'U' : 'M';
+			// the OS byte is archive data too (shown in the permission column when no permissions are recorded)
+			if (rng.chance(1, 4)) m.os = (uint8_t) (rng.chance(1, 2) ? 0x7f + rng.below(129) : 1 + rng.below(255));
 			Bytes name = hostile_str(rng, 10, false), dir = hostile_str(rng, 8, false), target = hostile_str(rng, 10, true);
 			for (auto &c : target) if (c == '|') c = 'z';
 			std::string path = rng.chance(1, 2) ? to_str(dir) + "/" : "";
@@ -586,7 +599,16 @@ struct C18 : Scenario {
 		}
 		static const char *cmds[] = {"l", "lv", "v", "vv", "t", "xf", "xn", "xq0", "xq1", "xq2", "xfi", "p", "pq", "ef", "tq1", "pn", "xfv", "tv", "xfw=out", "vq1"};
 		p.argv = {"lha", cmds[rng.below(20)], "/w/a.lzh"};
-		if (rng.chance(1, 8)) {
+		if (p.argv[1].find('n') != std::string::npos && rng.chance(1, 2)) {
+			// dry run over files that exist already: the report says so, naming them
+			for (auto &m : p.members)
+				if (m.kind == 'f' && !m.gname.empty() && m.gname.find('\0') == std::string::npos && m.gpath.find('\0') == std::string::npos) {
+					FsEnt e; e.type = 'f'; e.path = "/w/x/y/root/" + m.gpath + m.gname; e.data = to_bytes("old"); e.mode = 0644;
+					bool clash = false;
+					for (auto &x : p.fs) if (x.path == e.path || x.path.compare(0, e.path.size() + 1, e.path + "/") == 0 || e.path.compare(0, x.path.size() + 1, x.path + "/") == 0) clash = true;
+					if (!clash) p.fs.push_back(e);
+				}
+		} else if (rng.chance(1, 8)) {
 			// the files exist already and the overwrite policy is to ask: the prompt names the file
 			p.argv[1] = rng.chance(1, 2) ? "x" : "e";
 			for (auto &m : p.members)
@@ -646,6 +668,7 @@ struct C18 : Scenario {
 		if (all.find("OverWrite ?") != std::string::npos) count("probe.overwrite_prompt_shown");
 		if (all.find("Failed to read file type") != std::string::npos) count("probe.file_type_message");
 		if (all.find("Symbolic link") != std::string::npos) count("probe.symlink_message");
+		if (all.find("but file is exist") != std::string::npos) count("probe.dry_run_existing_file");
 		res.trace = finish_trace();
 		return res;
 	}
